@@ -34,8 +34,8 @@ def obligations(tier, seed):
     # the quiet option must not change result or exit status: every template once more with -q / --quiet (seed C08-3: -q turned script failures into exit 0)
     for i, (sc, args) in enumerate(SCRIPTS):
         obs.append(dict(name='run/%s/args%s/%s/%s' % (sc, '.'.join(map(str, args)), 'out' if i % 2 else 'in', '-q' if i % 3 else '--quiet'), kind='run', script=sc, args=args, mode='out' if i % 2 else 'in', opts=['-q' if i % 3 else '--quiet']))
-    obs.append(dict(name='run/OP_ADD/args1.1/out/-q', kind='run', script='OP_ADD', args=[1, 1], mode='out', opts=['-q']))
-    obs.append(dict(name='run/OP_ADD/args5.1/out/-q', kind='run', script='OP_ADD', args=[5, 1], mode='out', opts=['--quiet']))
+    obs.append(dict(name='run/OP_ADD/args1.1/out/-q-explicit', kind='run', script='OP_ADD', args=[1, 1], mode='out', opts=['-q']))
+    obs.append(dict(name='run/OP_ADD/args5.1/out/--quiet-explicit', kind='run', script='OP_ADD', args=[5, 1], mode='out', opts=['--quiet']))
     obs.append(dict(name='run/OP_1/dec-args', kind='run', script='OP_ADD', args=['d2', 'd1'], mode='out', opts=[]))
     # line terminators of the script read from stdin (seed C08-4: only the first LF was cut off, a CR stayed on the script text)
     for eol in ('crlf', 'cr', 'none', 'crcrlf'):
